@@ -55,10 +55,41 @@ pub fn run_functions(g: &GS, names: &[String], weighted: bool, pick: usize) -> V
         Ok(m) => sp(m),
         Err(e) => format!("Err({:?})", e.kind),
     }));
+    if names.len() >= 2 {
+        // exactly n entries, one node left out and another listed twice
+        let mut listed: Vec<String> = names.to_vec();
+        let last = listed.len() - 1;
+        listed[last] = listed[0].clone();
+        out.push(("multi_source(n entries, one repeated)", match dijkstra::multi_source(g, weighted, listed, None, None, false, true) {
+            Ok(m) => sp(m),
+            Err(e) => format!("Err({:?})", e.kind),
+        }));
+    }
     out.push(("multi_source(target)", match dijkstra::multi_source(g, weighted, sources, Some(target), None, false, true) {
         Ok(m) => sp(m),
         Err(e) => format!("Err({:?})", e.kind),
     }));
+    if weighted {
+        // also through the tail of a zero-weight edge, when there is one
+        let mut tails: Vec<String> = g.get_all_edges().iter().filter(|e| e.weight == 0.0 && e.u != e.v).map(|e| e.u.clone()).collect();
+        tails.sort();
+        tails.dedup();
+        if let Some(t0) = tails.first() {
+            out.push(("get_all_shortest_paths_involving(tail of a zero-weight edge)", {
+                let v = dijkstra::get_all_shortest_paths_involving(g, t0.clone(), weighted);
+                let mut b: Vec<(u64, Vec<Vec<String>>)> = v
+                    .into_iter()
+                    .map(|i| {
+                        let mut p = i.paths;
+                        p.sort();
+                        (i.distance.to_bits(), p)
+                    })
+                    .collect();
+                b.sort();
+                format!("{:?}", b)
+            }));
+        }
+    }
     out.push(("get_all_shortest_paths_involving", {
         let v = dijkstra::get_all_shortest_paths_involving(g, through, weighted);
         let mut b: Vec<(u64, Vec<Vec<String>>)> = v
@@ -132,7 +163,17 @@ fn c07_case(rng: &mut Rng, thorough: bool, small: bool, idx: u64) -> GCase {
     let fam = if n > 60 && (fam == "gnp_mid" || fam == "grid" || fam == "barbell" || fam == "ladder") { "gnp_sparse" } else { fam };
     // generic, non-dyadic weights: an order-dependent float reduction changes low bits
     let wclass = *rng.pick(&[WClass::Generic, WClass::Generic, WClass::Unweighted, WClass::Exact]);
-    gen_case(specs, fam, n, wclass, &GenOpts { self_loops: true, parallel: true, shuffle_edges: true }, rng)
+    let mut case = gen_case(specs, fam, n, wclass, &GenOpts { self_loops: true, parallel: true, shuffle_edges: true }, rng);
+    if wclass.weighted() && !case.edges.is_empty() && rng.chance(1, 3) {
+        // a few zero-weight edges: distances that do not grow along an edge (few enough for the
+        // number of tied paths to stay small)
+        for _ in 0..rng.range(1, 3) {
+            let k = rng.below(case.edges.len());
+            case.edges[k].2 = 0.0;
+        }
+        ctx::count("reach:graph-with-zero-weight-edges");
+    }
+    case
 }
 
 fn schedule_signatures(log: &[hooks::ParEvent]) -> (u64, u64, usize) {
